@@ -52,7 +52,8 @@ func TestEngineCpc(t *testing.T) {
 	require.NoError(t, err)
 
 	// denominations: 0 = bond/native, 1..3 minted, 4 without supply, 5 invalid name
-	denoms := []string{bond, "uone", "utwo", "uthree", "unosupply", "Bad Denom!"}
+	// (1 and 2 differ in letter case only: bank denominations are case-sensitive, an IBC voucher denom has upper-case hex)
+	denoms := []string{bond, "ibc/27394FB092D2ECCD56123C74F36E4C1F926001CEADA9CA97EA622B25F41E5EB2", "ibc/27394fb092d2eccd56123c74f36e4c1f926001ceada9ca97ea622b25f41e5eb2", "uthree", "unosupply", "Bad Denom!"}
 	for _, d := range denoms[1:4] {
 		coins := sdk.NewCoins(sdk.NewInt64Coin(d, 1000))
 		require.NoError(t, bk.MintCoins(ctx, minttypes.ModuleName, coins))
@@ -403,6 +404,40 @@ func TestEngineCpc(t *testing.T) {
 			p.Emit(op+tail, out+" "+dump(cand))
 			p.Count(strings.Fields(op)[0] + ":" + strings.SplitN(out, ":", 2)[0])
 			done++
+		}
+	}
+
+	// ---- scale: a registry larger than any page size -----------------------------------------------------------
+	// 120 further ERC-20 contracts on a branch of the final state: every registered, enabled contract must answer,
+	// through both EVM construction paths ("exactly the registered enabled contracts — no more, no fewer").
+	{
+		sctx, _ := ctx.CacheContext()
+		var addrs []common.Address
+		for i := 0; i < 120; i++ {
+			d := fmt.Sprintf("scale%03d", i)
+			coins := sdk.NewCoins(sdk.NewInt64Coin(d, 10))
+			require.NoError(t, bk.MintCoins(sctx, minttypes.ModuleName, coins))
+			require.NoError(t, bk.SendCoinsFromModuleToAccount(sctx, minttypes.ModuleName, c.wallets[0].GetCosmosAddress(), coins))
+			a, err := ck.DeployErc20CustomPrecompiledContract(sctx, "s"+d, cpctypes.Erc20CustomPrecompiledContractMeta{Symbol: "S", Decimals: 6, MinDenom: d})
+			require.NoError(t, err)
+			addrs = append(addrs, a)
+		}
+		saved := ctx
+		ctx = sctx // callableVia reads `ctx`
+		silent := 0
+		var first common.Address
+		for _, a := range addrs {
+			if !callableVia(a, false) || !callableVia(a, true) {
+				if silent == 0 {
+					first = a
+				}
+				silent++
+			}
+		}
+		ctx = saved
+		p.Count(fmt.Sprintf("scale:registered=%d:silent=%d", len(ck.GetAllCustomPrecompiledContractsMeta(sctx)), silent))
+		if silent > 0 {
+			p.Oracle("C17-registered-but-not-exposed", "%d of 120 registered, enabled ERC-20 contracts do not answer name() through the EVM (first: %s) once the registry holds %d contracts", silent, first.Hex(), len(ck.GetAllCustomPrecompiledContractsMeta(sctx)))
 		}
 	}
 }
